@@ -97,7 +97,9 @@ type Diff struct {
 	Got   string
 }
 
-func (d Diff) String() string { return fmt.Sprintf("%s[%s] want %s got %s", d.Field, d.Who, d.Want, d.Got) }
+func (d Diff) String() string {
+	return fmt.Sprintf("%s[%s] want %s got %s", d.Field, d.Who, d.Want, d.Got)
+}
 
 func short(a string) string {
 	if k := chain.KeyIndexByAddr([]byte(a), 16); k >= 0 {
